@@ -45,9 +45,12 @@ pub enum TxEdit {
     /// an individually valid spend of the attacker's own output to the victim; C01 places it in a
     /// block that already carries another valid spend of the same output (C01 only, block layer only)
     TwiceInBlock,
+    /// BlockStake-typed transaction, signed by the owner, spending the owner's own output that has
+    /// left the window (edge first: the block that leaves it with the next block) (C01 only)
+    StakeTypeExpiredInput,
 }
 /// edits that are judged by C01 only (kept out of TX_EDITS so that recorded edit indices stay stable)
-pub const TX_EDITS_EXTRA: [TxEdit; 6] = [TxEdit::OffChainInput, TxEdit::StakeTypeNoInput, TxEdit::StakeTypeForeignInput, TxEdit::AtrTypeForeignInput, TxEdit::AtrTypeMintNormalOutput, TxEdit::TwiceInBlock];
+pub const TX_EDITS_EXTRA: [TxEdit; 7] = [TxEdit::OffChainInput, TxEdit::StakeTypeNoInput, TxEdit::StakeTypeForeignInput, TxEdit::AtrTypeForeignInput, TxEdit::AtrTypeMintNormalOutput, TxEdit::TwiceInBlock, TxEdit::StakeTypeExpiredInput];
 pub const TX_EDITS: [TxEdit; 19] = [
     TxEdit::ForgedSig,
     TxEdit::NoSig,
@@ -238,6 +241,21 @@ pub fn edited_tx(e: TxEdit, c: &EditCtx) -> Option<Transaction> {
             let owner = (0u8..8).map(key).find(|k| k.0 == s.public_key)?;
             let amt = s.amount;
             Some(tx_from_inputs(vec![s], vec![out(owner.0, amt)], &owner, c.ts, vec![]))
+        }
+        TxEdit::StakeTypeExpiredInput => {
+            let s = c.expired.first()?.clone();
+            let owner = (0u8..8).map(key).find(|k| k.0 == s.public_key)?;
+            let amt = s.amount;
+            let mut t = tx_from_inputs(vec![s], vec![], &owner, c.ts, vec![]);
+            let mut o = Slip::default();
+            o.public_key = owner.0;
+            o.amount = amt;
+            o.slip_type = SlipType::BlockStake;
+            t.to.push(o);
+            t.transaction_type = TransactionType::BlockStake;
+            t.sign(&owner.1);
+            t.generate(&owner.0, 0, 0);
+            Some(t)
         }
         TxEdit::SpentInput => {
             let s = c.spent.first()?.clone();
